@@ -145,6 +145,142 @@ macro_rules! with_copy_type {
     };
 }
 
+/// A second synthetic resolver: every size and alignment twice what `Synth` answers. Used to show
+/// that what a builder attaches to a datum comes from *its* resolver, whatever other builders of
+/// the process resolved before (a process-wide memo of type information would pass every check
+/// that only ever uses one resolver for typed requests).
+struct Synth2;
+
+impl TypeResolver for Synth2 {
+    fn type_info<T>(&self) -> TypeInfo {
+        let t = Synth::by_std(std::any::type_name::<T>());
+        TypeInfo { name: t.name.to_owned(), size: t.size * 2, align: t.align * 2 }
+    }
+    fn dynamic_type_info(&self, type_name: &str) -> DynamicTypeInfo {
+        let mut d = Synth.dynamic_type_info(type_name);
+        d.info.size *= 2;
+        d.info.align *= 2;
+        d
+    }
+}
+
+#[derive(Clone, Copy, Debug, PartialEq)]
+enum Res {
+    Synth,
+    Synth2,
+    Host,
+}
+
+fn read_back<R: TypeResolver>(b: &NativeRecordDefinitionBuilder<R>, id: DatumId) -> (usize, usize, bool) {
+    let d = &b[id];
+    (d.details().size(), d.details().type_align(), d.details().allow_uninit())
+}
+
+fn probe_typed<T>(r: Res) -> (usize, usize, bool) {
+    match r {
+        Res::Synth => {
+            let mut b = NativeRecordDefinitionBuilder::new(Synth);
+            let id = b.add_datum::<T, _>("p").expect("valid add");
+            read_back(&b, id)
+        }
+        Res::Synth2 => {
+            let mut b = NativeRecordDefinitionBuilder::new(Synth2);
+            let id = b.add_datum::<T, _>("p").expect("valid add");
+            read_back(&b, id)
+        }
+        Res::Host => {
+            let mut b = NativeRecordDefinitionBuilder::new(HostTypeResolver);
+            let id = b.add_datum::<T, _>("p").expect("valid add");
+            read_back(&b, id)
+        }
+    }
+}
+
+fn probe_uninit<T: Copy>(r: Res) -> (usize, usize, bool) {
+    match r {
+        Res::Synth => {
+            let mut b = NativeRecordDefinitionBuilder::new(Synth);
+            let id = b.add_datum_allow_uninit::<T, _>("p").expect("valid add");
+            read_back(&b, id)
+        }
+        Res::Synth2 => {
+            let mut b = NativeRecordDefinitionBuilder::new(Synth2);
+            let id = b.add_datum_allow_uninit::<T, _>("p").expect("valid add");
+            read_back(&b, id)
+        }
+        Res::Host => {
+            let mut b = NativeRecordDefinitionBuilder::new(HostTypeResolver);
+            let id = b.add_datum_allow_uninit::<T, _>("p").expect("valid add");
+            read_back(&b, id)
+        }
+    }
+}
+
+fn probe_dynamic(ty: usize, r: Res) -> (usize, usize, bool) {
+    match r {
+        Res::Synth => {
+            let mut b = NativeRecordDefinitionBuilder::new(Synth);
+            let id = b.add_dynamic_datum("p", TYPES[ty].name).expect("valid add");
+            read_back(&b, id)
+        }
+        _ => {
+            let mut b = NativeRecordDefinitionBuilder::new(Synth2);
+            let id = b.add_dynamic_datum("p", TYPES[ty].name).expect("valid add");
+            read_back(&b, id)
+        }
+    }
+}
+
+/// Every type x {typed, may-be-uninit, dynamic} requested from fresh builders under three
+/// resolvers one after the other in this process (second synthetic, synthetic, host, synthetic
+/// again): each datum must carry the answer of its own builder's resolver.
+fn check_across_resolvers() -> (u64, Vec<(String, String)>) {
+    let mut n = 0u64;
+    let mut bad = vec![];
+    for ty in 0..TYPES.len() {
+        let t = &TYPES[ty];
+        let (hs, ha) = host_layout(ty);
+        for entry in [Entry::Typed, Entry::Uninit, Entry::Dynamic] {
+            if !applicable(ty, entry) {
+                continue;
+            }
+            let flag = match entry {
+                Entry::Typed => false,
+                Entry::Uninit => true,
+                _ => t.copy,
+            };
+            for r in [Res::Synth2, Res::Synth, Res::Host, Res::Synth] {
+                if entry == Entry::Dynamic && r == Res::Host {
+                    continue; // the host resolver has no dynamic types
+                }
+                let want = match r {
+                    Res::Synth => (t.size, t.align, flag),
+                    Res::Synth2 => (t.size * 2, t.align * 2, flag),
+                    Res::Host => (hs, ha, flag),
+                };
+                let got = catch_unwind(AssertUnwindSafe(|| match entry {
+                    Entry::Typed => with_type!(ty, probe_typed, r),
+                    Entry::Uninit => with_copy_type!(ty, probe_uninit, r),
+                    _ => probe_dynamic(ty, r),
+                }));
+                n += 1;
+                match got {
+                    Ok(g) if g == want => {}
+                    Ok(g) => bad.push((
+                        format!("type-info-across-resolvers/{:?}", entry),
+                        format!("a datum of type {} added through {:?} to a fresh builder under resolver {:?} carries (size, align, may-be-uninit) = {:?}; that resolver answers {:?} (other builders of this process had resolved the type under other resolvers before)", t.std_name, entry, r, g, want),
+                    )),
+                    Err(_) => bad.push((
+                        format!("type-info-across-resolvers/{:?}/panic", entry),
+                        format!("adding a datum of type {} through {:?} to a fresh builder under resolver {:?} panicked", t.std_name, entry, r),
+                    )),
+                }
+            }
+        }
+    }
+    (n, bad)
+}
+
 type SB = NativeRecordDefinitionBuilder<Synth>;
 type HB = NativeRecordDefinitionBuilder<HostTypeResolver>;
 
@@ -568,6 +704,14 @@ pub fn main(args: &Args, threads: usize) -> ! {
     let mut states = 1u64;
     let mut samples = vec![];
 
+    // (0) the same typed request under three resolvers in one process
+    let (across, across_bad) = check_across_resolvers();
+    for (k, t) in across_bad {
+        report.add(Violation::new(format!("C18/{}", k), t, json!({"space": "typed-history", "phase": "across-resolvers", "steps": []})));
+    }
+    transitions += across;
+    report.cov("requests_across_three_resolvers_in_one_process", across);
+
     // (1) every type x entry point, alone and as second datum
     let mut single = 0u64;
     for ty in 0..TYPES.len() {
@@ -766,7 +910,8 @@ pub fn main(args: &Args, threads: usize) -> ! {
 pub fn replay(prop: &str, case: &Value) -> i32 {
     let h = hist_from(case);
     if h.is_empty() {
-        let (_, _, bad) = check_table();
+        let (_, _, mut bad) = check_table();
+        bad.extend(check_across_resolvers().1);
         for (k, t) in &bad {
             println!("REPLAY-VIOLATION property={} key=C18/{} :: {}", prop, k, t);
         }
